@@ -78,7 +78,7 @@ func (w *world) block(b *refBlockT, id string) {
 		verifAssert(err == nil, id+".pollard.accepts")
 	}
 	if w.full != nil {
-		err = w.full.Modify(c01Leaves(b.adds, false), b.hashes, b.proof)
+		err = w.full.Modify(c01Leaves(b.adds, false), b.hashes, w.fullProof(b.proof))
 		verifAssert(err == nil, id+".mapfull.accepts")
 	}
 	if w.part != nil {
@@ -165,7 +165,7 @@ func (w *world) undoLast(id string) {
 		verifAssert(w.p.Undo(na, r.b.proof, r.b.hashes, r.prevRoots) == nil, id+".pollard.undo-ok")
 	}
 	if w.full != nil {
-		verifAssert(w.full.Undo(na, r.b.proof, r.b.hashes, r.prevRoots) == nil, id+".mapfull.undo-ok")
+		verifAssert(w.full.Undo(na, w.fullProof(r.b.proof), r.b.hashes, r.prevRoots) == nil, id+".mapfull.undo-ok")
 	}
 	if w.part != nil {
 		verifAssert(w.part.Undo(na, r.b.proof, r.b.hashes, r.prevRoots) == nil, id+".mappartial.undo-ok")
@@ -210,4 +210,13 @@ func cachedLeaves(m *MapPollard) []cachedLeaf {
 		return nil
 	})
 	return out
+}
+
+// fullProof: the proof handed to the full map forest.  bareFull=1: targets only - a full forest holds
+// every node, its Modify reads the targets alone and its Undo rebuilds the hashes itself.
+func (w *world) fullProof(p Proof) Proof {
+	if verifParam("bareFull", 0) == 1 {
+		return Proof{Targets: p.Targets}
+	}
+	return p
 }
